@@ -255,6 +255,7 @@ func TestC02(t *testing.T) {
 		rec.Note("enumerated %d of %d rewrite trees (depth <= 2 over 3 leaves; %d of them inexpressible) in this process", n, len(trees), inexpr)
 	}
 	rapid.Check(t, func(rt *rapid.T) {
+		noiseCall(rt) // one case in three is preceded by an unrelated, mostly failing call (see noise_test.go)
 		m := c02Draw(rt)
 		in := c02Input{Model: m}
 		var cls []string
